@@ -4,6 +4,7 @@ import (
 	"flag"
 	"fmt"
 	"math"
+	"os"
 	"runtime"
 	"runtime/metrics"
 	"sync"
@@ -16,15 +17,25 @@ import (
 	"go.opentelemetry.io/collector/verifharness/vt"
 )
 
-func TestMain(m *testing.M) { vt.Main(m) }
+func TestMain(m *testing.M) {
+	// self-check of the GC observation channel, before any limiter exists: one
+	// runtime.GC() must advance the forced-GC cycle counter by exactly one.
+	g0 := forcedGCs()
+	runtime.GC()
+	if g1 := forcedGCs(); g1 != g0+1 {
+		fmt.Fprintf(os.Stderr, "c18: harness self-check failed: forced-GC counter went %d -> %d over one runtime.GC()\n", g0, g1)
+		os.Exit(2)
+	}
+	vt.Main(m)
+}
 
 // shrinkBudget bounds the wall-clock time rapid spends shrinking a failing case.
 func shrinkBudget(d string) { _ = flag.Set("rapid.shrinktime", d) }
 
 const (
-	mib     = uint64(1) << 20
-	hourMS  = int64(3600 * 1000)
-	realMS  = int64(20) // the "real" min-GC interval used by a few cases
+	mib    = uint64(1) << 20
+	hourMS = int64(3600 * 1000)
+	realMS = int64(20) // the "real" min-GC interval used by a few cases
 	// stallTicks: consecutive 50 ms harness ticks without any memory reading after which a
 	// checker paced at 1 ms is declared stopped (>= 3 s of process time, 3000 intervals).
 	stallTicks = 60
@@ -374,8 +385,14 @@ func (s *source) readings() int {
 // No assertion depends on how long the wait takes; giving up only turns "the
 // checker is not running" into a verdict, and because idleness is counted in
 // ticks received by this very process, a stall of the whole process does not
-// count.
-func (s *source) awaitCheck(p int, idleTicks int) bool {
+// count.  It also gives up when maxUnparsed readings were taken in the phase
+// without a complete check becoming visible (every reading directly preceded
+// by a forced GC: GCs are being forced that are not followed by a measurement).
+func (s *source) awaitCheck(p int, idleTicks int) bool { return s.awaitCheckWhy(p, idleTicks) == "" }
+
+const maxUnparsed = 400
+
+func (s *source) awaitCheckWhy(p int, idleTicks int) (why string) {
 	tk := time.NewTicker(50 * time.Millisecond)
 	defer tk.Stop()
 	deadline := time.Now().Add(60 * time.Second)
@@ -395,17 +412,24 @@ func (s *source) awaitCheck(p int, idleTicks int) bool {
 				started = true
 			}
 		}
+		n := len(s.log)
 		s.mu.Unlock()
 		if done {
-			return true
+			return ""
+		}
+		if n >= maxUnparsed {
+			return fmt.Sprintf("%d memory readings were taken at the new level, every one of them directly after a forced GC, so no check consisting of a measurement optionally followed by GC + re-measurement is visible", n)
 		}
 		select {
 		case <-s.notify:
 			idle = 0
 		case <-tk.C:
 			idle++
-			if idle >= idleTicks || time.Now().After(deadline) {
-				return false
+			if idle >= idleTicks {
+				return fmt.Sprintf("no memory reading at all during %d consecutive 50 ms harness ticks although check_interval is 1 ms", idle)
+			}
+			if time.Now().After(deadline) {
+				return "no complete check within 60 s"
 			}
 		}
 	}
